@@ -38,6 +38,8 @@ type vhPay struct {
 	AmountMsat uint64 // 0 for SendPayment (full invoice amount)
 	MaxFee     uint64
 	Partial    bool
+	// an earlier payment was still open (not answered by a definitive failure) when this one was issued
+	PriorOpen bool
 }
 
 type vhFeeQ struct{ Amount, Reserve uint64 }
@@ -118,12 +120,12 @@ func (l *vhLN) answer(kind string) (lightning.PaymentStatus, error) {
 }
 func (l *vhLN) SendPayment(ctx context.Context, request string, maxFee uint64) (lightning.PaymentStatus, error) {
 	v.Yield("Client.SendPayment")
-	l.Pays = append(l.Pays, vhPay{Request: request, MaxFee: maxFee})
+	l.Pays = append(l.Pays, vhPay{Request: request, MaxFee: maxFee, PriorOpen: v.And(len(l.Pays) > 0, v.Not(l.definitiveFailure()))})
 	return l.answer("pay")
 }
 func (l *vhLN) PayPartialAmount(ctx context.Context, request string, amountMsat uint64, maxFee uint64) (lightning.PaymentStatus, error) {
 	v.Yield("Client.PayPartialAmount")
-	l.Pays = append(l.Pays, vhPay{Request: request, AmountMsat: amountMsat, MaxFee: maxFee, Partial: true})
+	l.Pays = append(l.Pays, vhPay{Request: request, AmountMsat: amountMsat, MaxFee: maxFee, Partial: true, PriorOpen: v.And(len(l.Pays) > 0, v.Not(l.definitiveFailure()))})
 	return l.answer("pay")
 }
 func (l *vhLN) OutgoingPaymentStatus(ctx context.Context, hash string) (lightning.PaymentStatus, error) {
